@@ -68,7 +68,9 @@ ZSTD_compressSubBlock_literal(const HUF_CElt* hufTable,
     assert(litSize > 0);
     assert(hufMetadata->hType == set_compressed || hufMetadata->hType == set_repeat);
 
+    RETURN_ERROR_IF(dstSize < lhSize, dstSize_tooSmall, "not enough space for the literals section header");
     if (writeEntropy && hufMetadata->hType == set_compressed) {
+        RETURN_ERROR_IF((size_t)(oend-op) < hufMetadata->hufDesSize, dstSize_tooSmall, "not enough space for the Huffman table description");
         ZSTD_memcpy(op, hufMetadata->hufDesBuffer, hufMetadata->hufDesSize);
         op += hufMetadata->hufDesSize;
         cLitSize += hufMetadata->hufDesSize;
@@ -201,6 +203,7 @@ ZSTD_compressSubBlock_sequences(const ZSTD_fseCTables_t* fseTables,
         const U32 MLtype = fseMetadata->mlType;
         DEBUGLOG(5, "ZSTD_compressSubBlock_sequences (fseTablesSize=%zu)", fseMetadata->fseTablesSize);
         *seqHead = (BYTE)((LLtype<<6) + (Offtype<<4) + (MLtype<<2));
+        RETURN_ERROR_IF((size_t)(oend-op) < fseMetadata->fseTablesSize, dstSize_tooSmall, "not enough space for the FSE table descriptions");
         ZSTD_memcpy(op, fseMetadata->fseTablesBuffer, fseMetadata->fseTablesSize);
         op += fseMetadata->fseTablesSize;
     } else {
